@@ -209,13 +209,23 @@ impl Display for Rset {
 }
 
 /// AUTH command
-#[derive(PartialEq, Eq, Clone, Debug)]
+#[derive(PartialEq, Eq, Clone)]
 #[cfg_attr(feature = "serde", derive(serde::Serialize, serde::Deserialize))]
 pub struct Auth {
     mechanism: Mechanism,
     credentials: Credentials,
     challenge: Option<String>,
     response: Option<String>,
+}
+
+// The challenge and response hold the decoded credentials: keep them out of debug output
+impl fmt::Debug for Auth {
+    fn fmt(&self, f: &mut Formatter<'_>) -> fmt::Result {
+        f.debug_struct("Auth")
+            .field("mechanism", &self.mechanism)
+            .field("credentials", &self.credentials)
+            .finish_non_exhaustive()
+    }
 }
 
 impl Display for Auth {
